@@ -204,3 +204,17 @@ reg('C08',
     level_text='Exhaustive over all segmentations up to 2 cut points (all segmentations for short streams) of every stream in the stated set.',
     level_note='differential oracle: observable trace, output, drained error queue and unconsumed remainder must be identical',
     design_ref='DESIGN.md section 3 / C08')
+
+reg('C14',
+    title='integer-to-text conversion is exact for every value, base and buffer size',
+    src='c14_inttostr.c',
+    configs={'quick': ['def', 'def+fast'], 'thorough': ['def', 'def+fast']},
+    deadline={'quick': 100, 'thorough': 1500},
+    level=MC,
+    technique='exhaustive enumeration of the 32-bit value space (thorough; one value per 64-value stratum in quick) and of a structured 64-bit set x bases x signedness x every buffer length 0..70 on the real formatter, compared with an independent formatter',
+    rule={'quick': 'sanitised: values m*2^s (m < 512, s step 3) and complements, powers of each base +-2, extremes, for 32 and 64 bit x 10 base arguments x signed/unsigned with a roomy buffer through the private and the public functions, then a boundary set x 5 bases x every buffer length 0..70 (canaries + exact-size heap block); unsanitised: 2^26 32-bit values (one per 64-value stratum) x 4 bases x signed/unsigned; non-trivial = every value case (each is compared digit by digit with the reference)',
+          'thorough': 'unsanitised: ALL 2^32 values x 4 bases x signed/unsigned; sanitised: m < 4096 with every shift'},
+    assumptions=['64-bit values are covered by a structured set only (2^64 cannot be enumerated)'],
+    level_text='Exhaustive over all 2^32 32-bit values (thorough) for digits and return value, and over every buffer length 0..70 for the truncation rule.',
+    level_note='UInt32ToStrBaseSign / UInt64ToStrBaseSign are private functions called by name; the public wrappers are covered by the same loops',
+    design_ref='DESIGN.md section 3 / C14')
